@@ -124,7 +124,13 @@ func (i *Interpreter) sendFormattedResponse(w ghttp.ResponseWriter) {
 			w.Header().Add(key, v)
 		}
 	}
-	w.WriteHeader(resp.StatusCode)
+	// net/http panics on a status code which cannot be sent (VCL may set any integer to the status),
+	// then respond as an internal server error
+	status := resp.StatusCode
+	if status < 100 || status > 999 {
+		status = ghttp.StatusInternalServerError
+	}
+	w.WriteHeader(status)
 	if resp.Body != nil {
 		io.Copy(w, resp.Body) // nolint:errcheck
 	}
